@@ -194,6 +194,15 @@ func (r *Run) Fail(class, f string, a ...any) {
 		r.violation = &Violation{Property: r.Prop, Class: class, Msg: fmt.Sprintf(f, a...), Step: r.steps, SimTime: r.simNow()}
 	}
 }
+// violationSuffix appends context to the recorded violation, if any.
+func (r *Run) violationSuffix(s string) {
+	r.mu.Lock()
+	defer r.mu.Unlock()
+	if r.violation != nil && !strings.Contains(r.violation.Msg, s) {
+		r.violation.Msg += " (" + s + ")"
+	}
+}
+
 func (r *Run) Failed() bool {
 	r.mu.Lock()
 	defer r.mu.Unlock()
